@@ -342,6 +342,11 @@ CHECKS = {
     technique='runtime monitoring: reference model on term graphs (bisimulation for identity, union-find for unifiability, reachability for cyclicity, groundness and variables); the graphs are built inside the machine by solving random equation systems with the occurs check off',
     text='Random systems of 1-6 equations N_i = shape(args) (binary and unary structures, list cells, strings with open tails, pairs; arguments are other nodes incl. back edges and self loops, constants and shared variables) are solved by unification; for every node acyclic_term/1, ground/1, the number of term_variables/2 and copy_term/2 followed by unification with the original, and for random node pairs ==/2, compare/3 in both directions and =/2 are compared with the model; acyclic_term/1 is followed by unifying all nodes with a copy taken before; every call must return within 20 s.',
     note='Known finding K15: acyclic_term/1 misjudges shared compact strings and leaves character lists changed (keyed on graphs that contain strings or character lists). compare/3 is only required to answer = exactly for identical terms and to be antisymmetric.'),
+ 'C35': dict(
+    level='exploration',
+    technique='runtime monitoring: metamorphic comparison of answers across repeated loads plus an invariant on the machine footprint read through the verif hook after every load',
+    text='Random programs (C07 generator, with and without cuts, plus a dynamic predicate with facts, a discontiguous predicate interleaved with other clauses, a multifile predicate and an operator declaration used by the text itself) are loaded 3-5 times on a fresh machine through load_module_string or consult_module_string; after every load 8 queries are run and the footprint is read; answers must equal those after the first load, and heap cells, stack top, trail, choice-point and environment registers, loader contexts and inactive load states must equal the values after the first load (atom table entries: the values after the second load).',
+    note='Known finding K58: one inactive load state is left behind per load. The code area is append-only by design and is not part of the property.'),
 }
 
 NOT_APPLICABLE_REASON_UNBUILT = ('check designed in DESIGN.md but not built/validated yet in this session; '
